@@ -17,16 +17,27 @@ pub fn sha256(data: &[u8]) -> D32 {
     h.finalize().into()
 }
 
+/// Assignment of pool values to atom names, shared by all behaviours that extend one
+/// chain root; names are assigned on first use, injectively.
+#[derive(Default)]
+pub struct AtomTable {
+    pub map: HashMap<String, PV>,
+    pub order: Vec<PV>,
+    pub next: usize,
+}
+
 /// Per-round context: how atoms are instantiated, which opaque values have been
 /// bound to real bytes so far.
 #[derive(Clone, Default)]
 pub struct Ctx {
     /// atom name -> pool value
-    pub atoms: HashMap<String, PV>,
+    pub atoms: std::rc::Rc<std::cell::RefCell<AtomTable>>,
     /// opaque id (JSON text of the id term) -> real bytes
     pub bind: HashMap<String, Vec<u8>>,
     /// memo for digest terms (JSON text -> digest)
     pub memo: HashMap<String, D32>,
+    /// SSKR splits made so far in this behaviour (call id -> share envelopes by group and member)
+    pub splits: HashMap<String, Vec<Vec<bc_envelope::Envelope>>>,
 }
 
 #[derive(Debug)]
@@ -46,6 +57,27 @@ fn tag_of(v: &Value) -> &str {
 }
 
 impl Ctx {
+    /// The pool value an atom name stands for in this chain.
+    pub fn atom(&self, name: &str) -> Option<PV> {
+        let mut t = self.atoms.borrow_mut();
+        if let Some(p) = t.map.get(name) {
+            return Some(p.clone());
+        }
+        if t.order.is_empty() {
+            return None;
+        }
+        let i = t.next % t.order.len();
+        let p = t.order[i].clone();
+        t.next += 1;
+        t.map.insert(name.to_string(), p.clone());
+        Some(p)
+    }
+    pub fn atom_kinds(&self) -> String {
+        let t = self.atoms.borrow();
+        let mut v: Vec<String> = t.map.iter().map(|(k, p)| format!("{}:{}", k, p.kind())).collect();
+        v.sort();
+        v.join(",")
+    }
     fn clone_for_wire(&self) -> Ctx {
         self.clone()
     }
@@ -54,7 +86,7 @@ impl Ctx {
         match tag_of(atom) {
             "v" => {
                 let name = atom[1].as_str().unwrap_or("");
-                match self.atoms.get(name) {
+                match self.atom(name) {
                     Some(pv) => Ok(pv.expected_cbor()),
                     None => err(format!("unbound atom {}", name)),
                 }
